@@ -183,7 +183,7 @@ SetupCleanup(e) ==
 
 Progress(e) ==
     /\ why' = why \cup Fails(<<
-          <<e.a + e.b <= Cardinality(endedIds), "C01", "progress-shows-more-than-finished">>,
+          <<Cfg.light \/ e.a + e.b <= Cardinality(endedIds), "C01", "progress-shows-more-than-finished">>,
           <<e.a >= progS /\ e.b >= progF, "C01", "progress-counts-decreased">>,
           <<e.d <= dropSum, "C01", "progress-shows-more-dropped-than-reported">> >>)
     /\ progS' = e.a /\ progF' = e.b
